@@ -19,6 +19,8 @@ int  simfs_open_dirs(void);
 int  simfs_live_temp_files(void);      /* files created by mkstemp that still exist */
 void simfs_tempfile_check_at_return(int fd);   /* oracle hook: called by workloads after spiftool_temp_file returns */
 int  simfs_fd_mode(int fd);
+long simfs_fd_size(int fd);
+int  simfs_is_fd(int fd);
 const char *simfs_last_temp_name(void);  /* the name the last successful mkstemp produced, as written into its template */
 int  simfs_is_temp(const char *path);   /* the path names a live file created by mkstemp */
 void simfs_set_mkstemp_mode(int m);    /* 0600 (modern libc) or 0666 (historic: mode left to the umask) */
